@@ -410,3 +410,88 @@ def o3(h):
     for ws in (True, False):
         for up in (True, False):
             px.run_px(h, 'driver[warm=%s,precond=%s]' % (ws, up), make_driver_harness(REL, 'nonlinear_equation_solve', ws, up), cap=20)
+
+
+# ------------------------------------------------------------------------------------------ O4: bounded convex convergence
+class QuadObjective:
+    """f(x) = sum_i a_i x_i^2/2 + b_i x_i  (exact closed forms on proxies or floats), identity preconditioner"""
+
+    def __init__(self, a, b):
+        self.a, self.b = a, b
+        self.p = None
+        self.scaling = 1.0
+        self.invScaling = 1.0
+
+    def value(self, x):
+        return NP.sum(0.5 * self.a * x * x + self.b * x)
+
+    def gradient(self, x):
+        return self.a * x + self.b
+
+    def hessian_vec(self, x, v):
+        return self.a * v
+
+    def gradient_and_tangent(self, x):
+        return self.gradient(x), lambda v: self.hessian_vec(x, v)
+
+    def apply_precond(self, v):
+        return v
+
+    def multiply_by_approx_hessian(self, v):
+        return v
+
+    def update_precond(self, x):
+        pass
+
+    def check_stability(self, x):
+        pass
+
+
+def make_convex_harness(k):
+    def fn(ex):
+        mod = px.load_module(REL)
+        a = ex.vec('a', 1)
+        b = ex.vec('b', 1)
+        x0 = ex.vec('x0', 1)
+        ex.assume(a[0] >= 0.1)
+        ex.assume(a[0] <= 10.0)
+        settings = mod.get_settings(max_trust_iters=k + 3, debug_info=False)
+        # distance of the start from the minimiser -b/a, in units of the initial radius
+        dist = a[0] * x0[0] + b[0]          # = a (x0 - x*)
+        R = settings.tr_size * (2.0 ** k)
+        ex.assume(dist <= R * a[0])
+        ex.assume(dist >= -R * a[0])
+        ex.assume(b[0] <= 100.0)
+        ex.assume(b[0] >= -100.0)
+        obj = QuadObjective(a, b)
+        events = []
+        xr, flag = mod.trust_region_minimize(obj, x0, settings, callback=lambda xx, oo: events.append(obj.value(xx)))
+        ex.goal('reports_success_within_the_unwinding_bound', Holds(flag is True), info='iteration cap reached or radius collapsed on a well-conditioned strictly convex quadratic')
+        if flag is True:
+            g = obj.gradient(xr)
+            ex.goal('returned_point_is_the_minimiser_to_tolerance', Lt(px.unwrap(g[0] * g[0]), px.unwrap(settings.tol ** 2)))
+            err = xr[0] * a[0] + b[0]
+            ex.goal('distance_to_minimiser_below_tol_over_a', Le(px.unwrap(err * err), px.unwrap((settings.tol ** 2))))
+        for i in range(1, len(events)):
+            ex.goal('reported_objectives_never_increase', Le(px.unwrap(events[i]), px.unwrap(events[i - 1])))
+    return fn
+
+
+@obligation(P, 'O4.convex_quadratic_converges', cap=600)
+def o4(h):
+    """FULL real solver (real CG, real dogleg, real acceptance loop, no stub) on every strictly convex quadratic in one
+    variable with curvature in [1/10,10] started within the initial radius 2^k*tr_size of the minimiser (k=0 registered; k>=1 explodes: see DESIGNED_NOT_REGISTERED): reports success, returns the
+    minimiser, reported objective values never increase (unwinding bound k+3 outer iterations, asserted)"""
+    h.encoded('optimism.EquationSolver:trust_region_minimize', 'optimism.EquationSolver:solve_trust_region_minimization', 'optimism.EquationSolver:dogleg_step',
+              'optimism.EquationSolver:is_converged', 'optimism.EquationSolver:project_to_boundary_with_coefs', 'optimism.EquationSolver:get_settings')
+    k = 0
+    h.bounds('n=1; f = a x^2/2 + b x with 1/10 <= a <= 10, |b| <= 100, |x0 - x*| <= 2^%d * tr_size; default settings; at most %d outer iterations (unwinding assertion = success flag)' % (k, k + 3))
+    h.outside('well-conditioned convex problems in dimension >= 2 and non-quadratic objectives: convergence there is not decidable by this technique within reach')
+    px.run_px(h, 'convex[k=%d]' % k, make_convex_harness(k), cap=60, div_mode='goal', sqrt_mode='goal', feas_ms=200,
+              expect_goals=['reports_success_within_the_unwinding_bound', 'returned_point_is_the_minimiser_to_tolerance'])
+
+
+DESIGNED_NOT_REGISTERED = [
+    ('O4.convex_quadratic_converges[k>=1]', 'start farther than one initial radius from the minimiser: the unrolled real loop (boundary steps, radius growth) '
+     'produces path conditions whose infeasibility z3 cannot decide within 0.2-1.5 s per branch, so the path tree does not close (no result after 25 min for k=1)'),
+]
